@@ -306,6 +306,23 @@ func (c *Compiler) processDeviations(module *parse.Module) {
 
 func (c *Compiler) doDeviate(target, deviate parse.Node, dp deviateProcessor) {
 
+	if _, ok := dp.(*deviateReplace); ok {
+		// Every property that can be replaced is single-valued: the
+		// deviate gives each at most once
+		seen := make(map[parse.NodeType]bool)
+		for _, property := range deviate.Children() {
+			if property.Type() == parse.NodeUnknown {
+				continue
+			}
+			if seen[property.Type()] {
+				c.error(deviate, fmt.Errorf(
+					"Property given more than once in deviate replace: %s",
+					property.Type()))
+			}
+			seen[property.Type()] = true
+		}
+	}
+
 	for _, property := range deviate.Children() {
 		err := dp.isAllowed(target, property, c.getExtCardinality())
 		if err != nil {
